@@ -18,7 +18,7 @@ from curtsies import events as cevents
 import wire
 
 PROP = "C08"
-MODULES = ["Curtsies.Properties.C08"]
+MODULES = ["Curtsies.Properties.C08", "Curtsies.Properties.C08Real"]
 RULE = ("scripts = agenda (<= 9 timed environment actions: byte arrivals incl. bursts up to 3 KB aligned to READ_SIZE / "
         "paste_threshold / MAX_KEYPRESS_SIZE boundaries made of ASCII, 2-4 byte UTF-8 characters and escape sequences from "
         "the live key tables, possibly cut inside a character; unget_bytes; event_trigger / scheduled_event_trigger (equal and "
@@ -57,7 +57,13 @@ LEVEL_NOTE = ("PARTIAL: the theorems are statements about the hand-written model
               "that feed the ledger oracle. Proof over a discrete-event model of Input in which thread preemption happens only at select and between "
               "requests (GIL atomicity of list operations, signal timing and select fairness are assumptions, named in the evidence); "
               "D15 / D12 / D35 (bytes lost when find_key raises: truncated keypress, ESC-prefix + high byte, ill-formed UTF-8) are open known "
-              "findings: the byte-ledger theorem carries the complementary hypothesis 'the request does not raise'. trusted: Lean kernel + propext/Classical.choice/Quot.sound, the "
+              "findings: the byte-ledger theorem carries the complementary hypothesis 'the request does not raise' (outcome form; input-level "
+              "form C08_no_loss_wellformed / C08_no_loss_real: streams made of complete keypresses). Other partial clauses, named: "
+              "C08_timeout_partial and C08_none_nothing_readable_partial exclude spurious readiness / end-of-file (the real code returns "
+              "None at 0.0 s on an EOF pipe; stream EOF is read as outside the quantifier: arrivals, callbacks, requests); the byte clause "
+              "of C08_exactly_once_history excludes unget_bytes between requests and requests that raised (the per-request ledger covers "
+              "both); footprints are judged on WHICH bytes were lost (exactly the failing key's bytes, in a paste preceded by its cleanly "
+              "decoded keypresses) and are disabled on any case where model and code disagree. trusted: Lean kernel + propext/Classical.choice/Quot.sound, the "
               "hand-written model, the scripted environment of the simulation, extract.py, the wire codec; the model's loop fuel is "
               "proved sufficient (C08_no_out_of_fuel); not proved: the byte clause of the multi-request ledger when unget_bytes fires "
               "between requests or a request raised (the per-request ledger covers both)")
@@ -570,12 +576,57 @@ def incomplete_tail(lost):
     return False
 
 
+def segments_more(data):
+    """keypresses of `data` as decoded while MORE bytes follow (full=False throughout); None unless it splits exactly"""
+    out, i, n = [], 0, len(data)
+    try:
+        while i < n:
+            cur = []
+            while True:
+                if i >= n:
+                    return None
+                cur.append(data[i:i + 1])
+                i += 1
+                k = cevents.get_key(cur, ENC, keynames=cevents.Keynames.BYTES, full=False)
+                if k is not None:
+                    out.append(k)
+                    break
+    except (UnicodeDecodeError, ValueError):
+        return None
+    return out
+
+
+def ideal_segments(data):
+    """The keypresses of a burst as an ideal decoder sees them: it always has the whole burst buffered, so `full` is true
+    only on the burst's last byte.  Independent of Input: curtsies.events.get_key fed one more byte at a time.
+    -> list of keys, or None when the burst is in the footprint of D12 / D15 / D35 (get_key raises / the burst ends
+    inside a keypress)."""
+    out, i, n = [], 0, len(data)
+    try:
+        while i < n:
+            cur = []
+            while True:
+                if i >= n:
+                    return None                       # ends inside a keypress: D15
+                cur.append(data[i:i + 1])
+                i += 1
+                k = cevents.get_key(cur, ENC, keynames=cevents.Keynames.BYTES, full=(i == n))
+                if k is not None:
+                    out.append(k)
+                    break
+    except (UnicodeDecodeError, ValueError):
+        return None                                   # D12 / D35 (or an over-long sequence)
+    return out
+
+
 class Ledger:
     """Reference queue model.  Entered items come from the environment's log, returned items from the values the
     requests returned; `held` is what the Input object and the OS buffer still hold."""
 
-    def __init__(self, case):
+    def __init__(self, case, no_footprints=False):
         self.case = case
+        self.no_footprints = no_footprints   # re-judging a case on which model and code disagree: nothing is excused
+        self.pend0 = b""
         self.S = bytearray()      # stream bytes in arrival order
         self.U = bytearray()      # unget bytes in call order
         self.R = bytearray()      # bytes of returned keypresses, in return order
@@ -634,7 +685,53 @@ class Ledger:
         self.sched_at_start = bool(self.pending_sched())
         self.n_sched_at_start = len(self.sched)
         self.spur0 = env.spurious
+        h0 = env.held()
+        self.pend0 = h0["u"] + h0["o"]       # what the Input and the OS buffer hold when the request starts
         self.req += 1
+
+    def loss_footprint(self, how, r, recs, h, reads):
+        """Known-finding footprint of a loss, judged on WHICH bytes were lost: exactly the bytes find_key had popped for the
+        key it failed on - preceded, only when a paste was being collected, by the cleanly decoded keypresses of that paste.
+        Anything more (buffered bytes thrown away as well, complete keypresses among the lost bytes) is not a known finding."""
+        if how != "raised" or self.no_footprints:
+            return None
+        pending = self.pend0 + b"".join(x[1] for x in recs if x[0] in ("arrive", "unget"))
+        held = h["u"] + h["o"]
+        if held and not pending.endswith(held):
+            return None
+        lost = pending[:len(pending) - len(held)]
+        if isinstance(r, ValueError) and not isinstance(r, UnicodeDecodeError) and str(r).startswith("Couldn't identify key sequence"):
+            cur, kind = parse_lost(str(r)), "D15"
+        elif isinstance(r, UnicodeDecodeError):
+            cur, kind = bytes(r.object), None
+            if len(cur) >= 2 and cur[:-1] in cevents.KEYMAP_PREFIXES and cur[-1] >= 0x80:
+                kind = "D12"       # a KEYMAP_PREFIXES member followed by one byte >= 0x80
+            elif cur[0] >= 0x80 and not cevents.decodable(cur, ENC) and not cevents.could_be_unfinished_char(cur, ENC):
+                kind = "D35"       # ill-formed UTF-8 in mid-stream (not a truncated valid prefix: that would be D15)
+        else:
+            return None
+        if kind is None or not cur or not lost.endswith(cur):
+            return None
+        prefix = lost[:len(lost) - len(cur)]
+        thr = self.case["thr"]
+        first = next((d for d in reads if d != 0), None)
+        in_paste = first is not None and thr is not None and len(first) > thr
+        if prefix and not (in_paste and segments_more(prefix) is not None):
+            return None            # more than the failing key was lost, and it was not a paste's cleanly decoded keypresses
+        if kind == "D15":
+            # the tail is a proper prefix of a keypress: nothing inside it is a keypress, and the buffer was exhausted
+            if h["u"] or len(cur) >= cevents.MAX_KEYPRESS_SIZE:
+                return None
+            try:
+                pieces = [cur[i:i + 1] for i in range(len(cur))]
+                if any(cevents.get_key(pieces[:j], ENC, keynames=cevents.Keynames.BYTES, full=False) is not None
+                       for j in range(1, len(cur))):
+                    return None
+                if cevents.get_key(pieces, ENC, keynames=cevents.Keynames.BYTES, full=True) is not None:
+                    return None
+            except Exception:  # noqa: BLE001
+                return None
+        return kind
 
     def fail(self, what, fp=None):
         self.problems.append(("request %d: %s" % (self.req, what), fp))
@@ -681,24 +778,7 @@ class Ledger:
         h = env.held()
         merged = bytes(self.R) + h["u"] + h["o"]
         if not is_shuffle(merged, bytes(self.S), bytes(self.U)):
-            fp = None
-            if how == "raised" and isinstance(r, ValueError) and str(r).startswith("Couldn't identify key sequence"):
-                lost_n = len(self.S) + len(self.U) - len(merged)
-                if lost_n > 0 and not self.U:
-                    lost = bytes(self.S)[len(self.R):len(self.R) + lost_n]
-                    if merged == bytes(self.S)[:len(self.R)] + bytes(self.S)[len(self.R) + lost_n:] and incomplete_tail(lost):
-                        fp = "D15"
-                elif lost_n > 0:
-                    fp = "D15" if incomplete_tail(parse_lost(str(r))) else None
-            elif how == "raised" and isinstance(r, UnicodeDecodeError):
-                # footprint D12 (C03): the decoder saw a KEYMAP_PREFIXES member followed by one byte >= 0x80
-                seq = bytes(r.object)
-                if len(seq) >= 2 and seq[:-1] in cevents.KEYMAP_PREFIXES and seq[-1] >= 0x80:
-                    fp = "D12"
-                # footprint D35: the decoder saw an ill-formed UTF-8 sequence in mid-stream: it starts with a byte >= 0x80, is
-                # not decodable and is not a truncated valid prefix (get_key would have waited for more: that is D15)
-                elif seq and seq[0] >= 0x80 and not cevents.decodable(seq, ENC) and not cevents.could_be_unfinished_char(seq, ENC):
-                    fp = "D35"
+            fp = self.loss_footprint(how, r, recs, h, reads)
             self.fail("bytes lost, duplicated or reordered (%s): entered %d stream + %d unget bytes, returned %d, still held %d"
                       % ("request raised %s" % type(r).__name__ if how == "raised" else how, len(self.S), len(self.U),
                          len(self.R), len(h["u"]) + len(h["o"])), fp)
@@ -748,6 +828,16 @@ class Ledger:
                 self.fail("a read of %d bytes (> paste_threshold %d) did not come back as a paste event" % (len(first), thr))
             elif first not in b"".join(r.events):
                 self.fail("paste event does not hold the burst's keypresses in order")
+        # -- WHICH keypresses a paste holds: nothing can arrive once the first read of a request has happened (the paste loop
+        #    never waits), so everything the paste returned plus whatever is still held was available to it as one burst
+        if how == "returned" and isinstance(r, cevents.PasteEvent) and all(isinstance(k, bytes) for k in r.events):
+            burst = b"".join(r.events) + h["u"] + h["o"]
+            ideal = ideal_segments(burst)
+            if ideal is not None and list(r.events) != ideal:
+                j = next((x for x in range(min(len(ideal), len(r.events))) if ideal[x] != r.events[x]), min(len(ideal), len(r.events)))
+                self.fail("paste event of a %d-byte burst holds %d keypresses, the burst has %d; first difference at keypress %d "
+                          "(byte offset %d): paste %r, burst %r" % (len(burst), len(r.events), len(ideal), j,
+                                                                   len(b"".join(ideal[:j])), r.events[j:j + 2], ideal[j:j + 2]))
 
 
 def parse_lost(msg):
@@ -758,10 +848,10 @@ def parse_lost(msg):
         return b""
 
 
-def oracle(c):
+def oracle(c, no_footprints=False):
     """-> list of (what, footprint)"""
     env = Env(c)
-    led = Ledger(c)
+    led = Ledger(c, no_footprints)
     try:
         env.run(observer=led)
     finally:
@@ -991,6 +1081,13 @@ def boundary_cases(r):
              lambda n: (b"\x1b[A" * (n // 3 + 1))[:n],
              lambda n: ("😀".encode() * (n // 4 + 1))[:n],
              lambda n: (rand_stream(r, n + 8) + b'zzzzzzzz')[:n]]
+    # escape sequences / multi-byte characters straddling every offset around READ_SIZE inside one big burst
+    R = cinput.READ_SIZE
+    for unit in (b"\x1b[A", b"\x1b[15~", "\u20ac".encode(), "\U0001f600".encode()):
+        for off in range(R - len(unit) - 1, R + 2):
+            data = b"a" * off + unit * 3 + b"z" * 20
+            cases.append(dict(thr=8, wake=1, npipes=0, agenda=[(0, "A", data.hex())],
+                              ops=[("d", 0), ("r", 0), ("r", 0), ("r", 0)], tag="boundary-straddle"))
     for thr in thresholds():
         for n in sizes(thr):
             for ki, k in enumerate(kinds):
@@ -1260,10 +1357,18 @@ def run_cases(ctx, cases, tie=True):
             gk = getkey_cases(ctx)
             ctx.tie("C08/getkey", gk, lambda c: "getkey %s %d" % (hx(c[0]), c[1]), getkey_impl)
             outs = ctx.tie("C08/insim", cases, line, impl)
+            import lib
+            try:
+                model = lib.run_driver([line(c) for c in cases])
+            except lib.InfraError:
+                model = outs
+            disagree = [m != o for m, o in zip(model, outs)]
         else:
             outs = [impl(c) for c in cases]
-        for c, o in zip(cases, outs):
-            probs = oracle(c)
+            disagree = [False] * len(cases)
+        for c, o, dis in zip(cases, outs, disagree):
+            # where model and code disagree on a case, a known finding may not excuse it: judge it without footprints
+            probs = oracle(c, no_footprints=dis)
             head = o.split(" | ")[0].split(" ")
             nontriv = any(tok not in ("n", "B", "") for tok in head)
             ctx.count(c, nontrivial=nontriv, tag=c.get("tag", "random"))
